@@ -96,6 +96,7 @@ type Interp struct {
 
 	schedFork     bool
 	schedLevel    int
+	schedFilter   string
 	preemptBudget int
 	tracked       map[*Value]string
 	threads []*thread
